@@ -530,8 +530,21 @@ func c12Valid(p *ana.Prog, r *ana.Result) {
 			// returns the key it has just installed)
 			okLoad, nRet := true, 0
 			var why string
+			// kill: stores that overwrite the local through which a looked-up value travels (a path
+			// through one of them does not carry that value)
+			var kill map[*ssa.Alloc]bool
 			reachesFrom := func(from ssa.Instruction, toEdge *ana.Edge, toInstr ssa.Instruction) bool {
 				s := &ana.Search{Fn: cur, NoFacts: true}
+				if len(kill) > 0 {
+					s.Stop = func(x ssa.Instruction) bool {
+						st, ok := x.(*ssa.Store)
+						if !ok || x == from {
+							return false
+						}
+						a, isA := st.Addr.(*ssa.Alloc)
+						return isA && kill[a]
+					}
+				}
 				if toEdge != nil {
 					e := *toEdge
 					s.TargetEdge = func(x ana.Edge) bool { return x == e }
@@ -573,7 +586,29 @@ func c12Valid(p *ana.Prog, r *ana.Result) {
 								okLoad, why = false, "the returned variable may be unset"
 								continue
 							}
-							leaf(sv, e, at, depth+1)
+							// the value rests in the local from the store to this load: no generation may
+							// happen in between (unless the local is overwritten after it)
+							nSt := 0
+							for _, ref := range ana.Referrers(a) {
+								st, isSt := ref.(*ssa.Store)
+								if !isSt || st.Addr != ssa.Value(a) || st.Val != sv {
+									continue
+								}
+								nSt++
+								for _, g := range gens {
+									kill = map[*ssa.Alloc]bool{}
+									through := reachesFrom(st, nil, g.(ssa.Instruction))
+									kill = map[*ssa.Alloc]bool{a: true}
+									if through && reachesFrom(g.(ssa.Instruction), nil, ld) {
+										okLoad, why = false, "a key looked up before generateNext ran can be returned after it"
+									}
+									kill = nil
+								}
+								leaf(sv, nil, st, depth+1)
+							}
+							if nSt == 0 {
+								leaf(sv, e, at, depth+1)
+							}
 						}
 						return
 					}
